@@ -226,7 +226,7 @@ def axioms():
 
 
 _SEQ_SYMS = {"Len", "At", "Append1", "RemoveAt", "IndexOf", "Contains", "Take", "Drop", "Concat", "Update",
-             "SumI", "SumR", "Range", "PSum", "PSumI", "Empty"}
+             "SumI", "SumR", "Range", "PSum", "PSumI", "Empty", "Intended"}
 
 
 def _symbols(t, acc, seen):
